@@ -70,7 +70,7 @@ SPEC = dict(
         technique='Coq proof over regenerated model (py2v) + translator validation + wf=>accept monitor',
         design_ref='DESIGN.md section 5 (C02)'),
     stages=[stage_translation, stage_monitor, PCM.stage_for('C02')],
-    theorems=['C02_rtu_read', 'C02_rtu_read_payload', 'C02_rtu_write', 'C02_rtu_write_multi', 'C02_tcp_read', 'C02_tcp_read_payload',
+    theorems=['C02_accepted_answer_completes_the_request', 'C02_rtu_read', 'C02_rtu_read_payload', 'C02_rtu_write', 'C02_rtu_write_multi', 'C02_tcp_read', 'C02_tcp_read_payload',
               'C02_tcp_write', 'C02_tcp_write_multi', 'C02_aa55_read', 'C02_aa55_write', 'C02_aa55_write_multi', 'C02_aa55_generic',
               'C02_aa55_payload'],
     rule='conforming frames per command: payloads all-00 / all-FF / ramp / 7FFF / random x unit addresses x trailing bytes; AA55 '
